@@ -454,6 +454,48 @@ fn run_boundary(c: &BoundaryCase) -> Outcome {
             }
         }
     }
+    // one read of the source is interrupted (ErrorKind::Interrupted: nothing read, call again) at
+    // call k; the consumer repeats interrupted reads as std's helpers do.  The text that comes out
+    // is the canonical one, or reading ends in an error - never a clean different text.
+    for uni in [usize::MAX, c.boundary, 511, 513] {
+        for k in 0..8usize {
+            let src = InterruptedReader { inner: UniReader { data: &t, pos: 0, uni }, calls: 0, at: k };
+            let mut r = NormalizedReader::new(src, LineBreak::Crlf);
+            let mut got = Vec::new();
+            let mut buf = vec![0u8; 600];
+            let mut repeats = 0usize;
+            let res: Result<(), String> = loop {
+                match r.read(&mut buf) {
+                    Ok(0) => break Ok(()),
+                    Ok(n) => {
+                        repeats = 0;
+                        got.extend_from_slice(&buf[..n]);
+                        if got.len() > 2 * want.len() + 1024 {
+                            break Err("runaway".into());
+                        }
+                    }
+                    Err(e) if e.kind() == std::io::ErrorKind::Interrupted && repeats < 1000 => repeats += 1,
+                    Err(e) => break Err(e.to_string()),
+                }
+            };
+            o.evals += 1;
+            if res.is_ok() && got != want {
+                o.push(
+                    "C14:boundary:normalized-reader:interrupted-read-changes-the-text",
+                    format!(
+                        "w=\"{}\" at {}-{} source<= {uni}, read number {k} of the source interrupted once: the reader ends cleanly with {} octets, the canonical text has {} (first difference at {})",
+                        esc(&c.w),
+                        c.boundary,
+                        c.back,
+                        got.len(),
+                        want.len(),
+                        first_diff(&got, &want)
+                    ),
+                );
+                return o;
+            }
+        }
+    }
     // sign through the hasher, verify through the reader-based path
     let cert = common::cert(KeyKind::Ed25519V4, 1);
     let key = &cert.primary_key;
@@ -483,6 +525,23 @@ fn first_diff(a: &[u8], b: &[u8]) -> usize {
         .zip(b.iter())
         .position(|(x, y)| x != y)
         .unwrap_or(a.len().min(b.len()))
+}
+
+/// Returns `ErrorKind::Interrupted` once, at call number `at`.
+struct InterruptedReader<R: Read> {
+    inner: R,
+    calls: usize,
+    at: usize,
+}
+
+impl<R: Read> Read for InterruptedReader<R> {
+    fn read(&mut self, buf: &mut [u8]) -> std::io::Result<usize> {
+        self.calls += 1;
+        if self.calls == self.at + 1 {
+            return Err(std::io::Error::new(std::io::ErrorKind::Interrupted, "verif-interrupted"));
+        }
+        self.inner.read(buf)
+    }
 }
 
 struct UniReader<'a> {
@@ -754,7 +813,7 @@ pub fn check(ctx: &Ctx) {
     ctx.run_space(
         "window_edges",
         true,
-        "x^a . w . y^t (t in {0,1,7}: the text may end exactly at the edge) with w over {CR,LF,x}, |w| <= 4 (thorough 5), every alignment of w across offsets 512, 1024, 1536, 8192, 16384; hasher cuts at every position in/around w; NormalizedReader with 6 source and 4 consumer patterns; sign_text_data -> verify",
+        "x^a . w . y^t (t in {0,1,7}: the text may end exactly at the edge) with w over {CR,LF,x}, |w| <= 4 (thorough 5), every alignment of w across offsets 512, 1024, 1536, 8192, 16384; hasher cuts at every position in/around w; NormalizedReader with 6 source and 4 consumer patterns, and with one read of the source interrupted (ErrorKind::Interrupted) at each of its first 8 calls; sign_text_data -> verify",
         bc.into_par_iter(),
         run_boundary,
     );
